@@ -32,7 +32,7 @@ use std::{
     pin::Pin,
     sync::{
         Arc,
-        atomic::{AtomicUsize, Ordering},
+        atomic::{AtomicBool, AtomicUsize, Ordering},
         mpsc,
     },
     task::{Context, Poll, Wake, Waker},
@@ -118,6 +118,8 @@ struct Chan {
     wsegs: Vec<Vec<u8>>,
     /// payload bytes the harness drained from the far end
     drained: Vec<u8>,
+    /// an operation on this channel was reported as failed / cancelled
+    errored: bool,
     /// `dup c d`: this entry is only a second descriptor (`near`) for the kernel object of channel `alias`
     alias: Option<usize>,
     /// the user dropped the key of an operation on this channel: what that operation transferred is
@@ -166,7 +168,7 @@ fn mk_chan(kind: &str, content: &[u8]) -> Chan {
         }
         _ => panic!("chan kind"),
     };
-    Chan { kind: k, near, far, fed: content.to_vec(), consumed: vec![], segments: vec![], wsegs: vec![], drained: vec![], alias: None, lossy: false }
+    Chan { kind: k, near, far, fed: content.to_vec(), consumed: vec![], segments: vec![], wsegs: vec![], drained: vec![], alias: None, lossy: false, errored: false }
 }
 
 // ---------------------------------------------------------------------------------------------
@@ -675,6 +677,17 @@ impl World {
             }
             _ => {}
         }
+        if d.res.is_err() {
+            let chans: Vec<usize> = match &kind {
+                Kind::Read(c, _) | Kind::Recv(c, _) | Kind::Write(c, _) | Kind::Send(c, _) | Kind::RMulti(c) => vec![*c],
+                Kind::Splice(a, b, _) => vec![*a, *b],
+                _ => vec![],
+            };
+            for c in chans {
+                let c = self.root(c);
+                self.chans.get_mut(&c).unwrap().errored = true;
+            }
+        }
         match &d.res {
             Ok(n) => format!("ok:{n}:{}", d.data.as_deref().map(hex).unwrap_or_else(|| "-".into())),
             Err(e) => format!("err:{e}:-"),
@@ -798,6 +811,33 @@ impl World {
         }
     }
 
+    /// `poll(None)`: blocks until the driver has something to deliver.  A watchdog thread wakes the driver
+    /// after `bound`; returns true when only the watchdog ended the wait.
+    fn poll_blocking(&mut self, bound: Duration) -> bool {
+        let waker = match &self.p {
+            Backend::Pro(p) => p.waker(),
+            Backend::Rt(rt) => rt.waker(),
+        };
+        let (tx, rx) = mpsc::channel::<()>();
+        let fired = Arc::new(AtomicBool::new(false));
+        let f2 = fired.clone();
+        let h = std::thread::spawn(move || {
+            if rx.recv_timeout(bound).is_err() {
+                f2.store(true, Ordering::SeqCst);
+                waker.wake();
+            }
+        });
+        match &mut self.p {
+            Backend::Pro(p) => {
+                let _ = p.poll(None);
+            }
+            Backend::Rt(rt) => rt.poll_with(None),
+        }
+        let _ = tx.send(());
+        let _ = h.join();
+        fired.load(Ordering::SeqCst)
+    }
+
     fn total_wakes(&self) -> usize {
         self.ops.values().flat_map(|o| o.wakers.iter()).map(|w| w.0.load(Ordering::SeqCst)).sum()
     }
@@ -918,6 +958,19 @@ impl World {
             }
             // payload bytes are unique per case, so the pieces can be put back into stream order
             ch.consumed = in_stream_order(&ch.segments, &ch.fed);
+            // an outcome reported as failed / cancelled must not have had effects: every byte fed is either
+            // in a delivered result or still in the socket / pipe
+            if matches!(ch.kind, ChanKind::RPipe | ChanKind::Sock) && ch.fed.starts_with(&ch.consumed) {
+                let remaining = sys_read_all(ch.near.as_raw_fd());
+                let mut all = ch.consumed.clone();
+                all.extend_from_slice(&remaining);
+                if all != ch.fed {
+                    let sig = if ch.errored { "C02:effect-without-outcome" } else { "C02:result-swapped" };
+                    ex.fail(sig, format!("channel {c}: {} bytes were fed, results delivered {} and {} are still unread: bytes were consumed by an operation that did not report them{}",
+                        ch.fed.len(), hex(&ch.consumed), hex(&remaining),
+                        if ch.errored { " (an operation on this channel was reported failed / cancelled)" } else { "" }));
+                }
+            }
             if !ch.fed.starts_with(&ch.consumed) {
                 ex.fail("C02:result-swapped", format!("channel {c}: reads delivered {:?}, which is not a partition of a prefix of the stream fed {}", ch.segments.iter().map(|s| hex(s)).collect::<Vec<_>>(), hex(&ch.fed)));
             }
@@ -925,7 +978,8 @@ impl World {
             if matches!(ch.kind, ChanKind::WPipe | ChanKind::Sock) {
                 let written = in_stream_order(&ch.wsegs, &ch.drained);
                 if ch.drained != written {
-                    ex.fail("C02:own-result", format!("channel {c}: completed writes claim {:?} but the far end received {}", ch.wsegs.iter().map(|s| hex(s)).collect::<Vec<_>>(), hex(&ch.drained)));
+                    let sig = if ch.errored && ch.drained.len() > written.len() { "C02:effect-without-outcome" } else { "C02:own-result" };
+                    ex.fail(sig, format!("channel {c}: completed writes claim {:?} but the far end received {}", ch.wsegs.iter().map(|s| hex(s)).collect::<Vec<_>>(), hex(&ch.drained)));
                 }
             }
         }
@@ -1032,6 +1086,7 @@ fn exec_inner(case: &Case) -> Exec {
                                 drained: vec![],
                                 alias: Some(root),
                                 lossy: false,
+                                errored: false,
                             },
                         );
                         ex.tag("dup");
@@ -1182,7 +1237,18 @@ fn exec_inner(case: &Case) -> Exec {
                             wd.try_pop(id, &mut ex).unwrap_or_else(|| "none".into())
                         }
                     }
-                    ["ctoken", k] => {
+                    ["flush"] => {
+                        match &mut wd.p {
+                            Backend::Pro(p) => {
+                                let _ = p.flush();
+                            }
+                            Backend::Rt(rt) => {
+                                let _ = rt.flush();
+                            }
+                        }
+                        "ok".into()
+                    }
+                    [cmd @ ("ctoken" | "ctokenb"), k] => {
                         let id: usize = k.parse().unwrap();
                         let tok = match tokens.get(&id) {
                             Some(t) => Some(t.clone()),
@@ -1199,6 +1265,17 @@ fn exec_inner(case: &Case) -> Exec {
                             None => false,
                         };
                         ex.tag("ctoken");
+                        if *cmd == "ctokenb" && r {
+                            // the submitter keeps waiting: a blocking poll must come back with the outcome
+                            ex.tag("blocking-poll");
+                            if wd.poll_blocking(Duration::from_millis(400)) {
+                                ex.fail(
+                                    "C02:outcome-not-delivered",
+                                    format!("op {id}: after cancel_token a blocking poll(None) did not return within 400 ms although the final outcome was already owed (only the watchdog woke the driver)"),
+                                );
+                            }
+                            wd.settle();
+                        }
                         format!("{r} | {}", wd.scan(&mut ex))
                     }
                     ["cancel", k] => {
@@ -1778,6 +1855,65 @@ fn gen_rewake(rng: &mut Rng, idx: usize) -> Case {
     Case { name: format!("rewake{idx}"), lines }
 }
 
+/// cancellation by token around completion: the op is parked (cancel must deliver ECANCELED even to a
+/// submitter that blocks in `poll(None)`), or it has ALREADY completed in the kernel but its completion has
+/// not been reaped (then the real outcome must be reported: a cancel is only a request)
+fn gen_cancel_window(rng: &mut Rng, idx: usize) -> Case {
+    let iour = rng.chance(1, 2);
+    let cap = *rng.pick(&[2u32, 4, 1024]);
+    let mut lines = vec![format!("cfg {} {cap}", if iour { "iour" } else { "poll" })];
+    lines.push(format!("{} 0", if rng.chance(2, 3) { "sock" } else { "rpipe" }));
+    lines.push("sock 1".into());
+    let sock0 = lines[1].starts_with("sock");
+    let rd = if sock0 && rng.chance(1, 2) { "recv" } else { "read" };
+    let mut id = 0;
+    let rounds = rng.range(1, 3);
+    let mut seq = 0x20u8;
+    for _ in 0..rounds {
+        match rng.below(4) {
+            0 => {
+                // parked, then cancelled while the submitter blocks
+                lines.push(format!("push {id} {rd} 0 {}", rng.range(1, 4)));
+                if rng.chance(1, 2) {
+                    lines.push(format!("waker {id}"));
+                }
+                lines.push("settle".into());
+                lines.push(format!("ctokenb {id}"));
+                id += 1;
+            }
+            1 | 2 => {
+                // the data arrives, THEN the cancel: completed-but-unreaped on io_uring, still parked on polling
+                lines.push(format!("push {id} {rd} 0 {}", rng.range(1, 4)));
+                lines.push("settle".into());
+                seq += 2;
+                lines.push(format!("feed 0 {:02x}{:02x}", seq, seq + 1));
+                lines.push(format!("{} {id}", if rng.chance(1, 2) { "ctokenb" } else { "ctoken" }));
+                lines.push("settle".into());
+                id += 1;
+                // whatever was not delivered must still be readable
+                lines.push(format!("push {id} {rd} 0 4"));
+                lines.push("settle".into());
+                lines.push(format!("ctokenb {id}"));
+                id += 1;
+            }
+            _ => {
+                // a send that the kernel has finished before the cancel arrives
+                seq += 3;
+                lines.push(format!("push {id} send 1 {:02x}{:02x}{:02x}", seq, seq + 1, seq + 2));
+                if rng.chance(1, 2) {
+                    lines.push("flush".into());
+                }
+                lines.push(format!("ctoken {id}"));
+                lines.push("settle".into());
+                lines.push("drain 1".into());
+                id += 1;
+            }
+        }
+    }
+    lines.push("settle".into());
+    Case { name: format!("cwin{idx}"), lines }
+}
+
 /// the multi-descriptor operation (Splice) with the two ends becoming ready in either order
 fn gen_splice(rng: &mut Rng, idx: usize, order: u64) -> Case {
     let mut lines = vec!["cfg poll 1024".to_string(), "rpipe 0".into(), "wpipe 1".into(), "fill 1".into()];
@@ -1995,6 +2131,9 @@ fn generate(tier: &str, rng: &mut Rng) -> Vec<Case> {
     }
     for i in 0..100 * scale {
         cases.push(gen_rewake(&mut rng.fork(), i));
+    }
+    for i in 0..60 * scale {
+        cases.push(gen_cancel_window(&mut rng.fork(), i));
     }
     for i in 0..60 * scale {
         cases.push(gen_jobs(&mut rng.fork(), i));
